@@ -93,7 +93,7 @@ def _clean_member_fingerprints(target_dir):
             shutil.rmtree(os.path.join(fp, d), ignore_errors=True)
 
 
-def _prune(keep=8):
+def _prune(keep=24):
     base = os.path.join(CACHE, "facts")
     if not os.path.isdir(base):
         return
@@ -117,6 +117,10 @@ def facts_dir(config="default", root=None, target_dir=None, quiet=False):
     out = os.path.join(CACHE, "facts", th, config)
     marker = os.path.join(out, "_ok.json")
     if os.path.exists(marker):
+        try:
+            os.utime(os.path.join(CACHE, "facts", th), None)     # LRU: a hit refreshes the entry
+        except OSError:
+            pass
         return out
     lock_path = os.path.join(CACHE, "extract.lock")
     with open(lock_path, "w") as lock:
